@@ -360,6 +360,9 @@ def execute(check, tier, seed, budget_s=None, out=sys.stdout):
         "simulated_steps": steps_total,
         "context_switches": switches_total,
         "runs_per_hour": int(n_runs / max(wall, 1e-6) * 3600),
+        "seeds_per_hour": int(n_items / max(wall, 1e-6) * 3600),  # every case draws its own sub-seed from (VERIF_SEED, property, index)
+        "user_space_preemptions": kernel_fired.get("ustep-preempt", 0),
+        "timer_expiries_and_time_jumps": kernel_fired.get("timer-expiry", 0) + kernel_fired.get("time-jump", 0),
         "outcomes": outcomes,
         "kernel_behaviours_fired": kernel_fired,
         "fault_sites_fired": fault_table,
